@@ -32,7 +32,19 @@ pub trait ExRead {
     spec fn rem(&self) -> Seq<u8>;
     /// ghost: number of bytes consumed from this reader so far
     spec fn consumed(&self) -> nat;
-    fn read(&mut self, buf: &mut [u8]) -> (r: Result<usize, std::io::Error>);
+    /// ASSUMED (std::io::Read::read on a blocking stream): transfers the next n <= buf.len() bytes; n == 0 only at end of
+    /// stream (or for an empty buffer)
+    fn read(&mut self, buf: &mut [u8]) -> (r: Result<usize, std::io::Error>)
+        ensures
+            final(buf)@.len() == old(buf)@.len(),
+            r is Ok ==> r->Ok_0 <= old(buf)@.len() && r->Ok_0 <= old(self).rem().len(),
+            r is Ok ==> final(buf)@.take(r->Ok_0 as int) == old(self).rem().take(r->Ok_0 as int),
+            r is Ok ==> final(self).rem() == old(self).rem().skip(r->Ok_0 as int),
+            r is Ok ==> final(self).consumed() == old(self).consumed() + r->Ok_0,
+            r is Ok && r->Ok_0 == 0 ==> old(buf)@.len() == 0 || old(self).rem().len() == 0,
+            // (consequence of the above, stated for the solver) a completely filled buffer is a prefix of the stream
+            r is Ok && r->Ok_0 == old(buf)@.len() ==> old(self).rem() =~= final(buf)@ + final(self).rem(),
+        ;
     fn read_exact(&mut self, buf: &mut [u8]) -> (r: Result<(), std::io::Error>)
         ensures
             final(buf)@.len() == old(buf)@.len(),
